@@ -585,7 +585,7 @@ pub fn run(ctx: &Ctx) -> (Acc, String, bool) {
     let ins = inputs();
     let resolves = host_resolves();
     let small_total = small.len() as u64;
-    let random_total: u64 = ctx.pick(4_000, 150_000);
+    let random_total: u64 = ctx.pick(2_500, 150_000);
     let seed = ctx.seed;
     let cfg = GenCfg::default();
     let acc = run_cases(ctx, small_total + random_total, |i, acc| {
